@@ -239,6 +239,7 @@ pub fn dedup(plan: &mut Plan) {
             Item::WChunk { fd, .. } => format!("wc{fd}"),
             Item::RChunk { .. } => "rc".into(),
             Item::Hint { .. } => "h".into(),
+            Item::FType { .. } => "t".into(),
             Item::Eof { .. } => "eof".into(),
             Item::Flip { .. } => "flip".into(),
             Item::Kill { .. } => "kill".into(),
